@@ -68,15 +68,49 @@ fn menv_positions(seed: u64, n: usize) -> Vec<usize> {
     }).collect()
 }
 
+/// instructions that refer to an order placed in the same step: `n - 2` new orders, a cancel of a resting
+/// order, and a cancel (or modify) of the last of the new orders. Every position but the last item's is
+/// read from an arrival or end time; the last item's is its end time when the cancel took effect and
+/// otherwise the one slot nobody else occupies.
+fn env_same_step(seed: u64, n: usize, modify: bool) -> Vec<usize> {
+    let mut env: Env<1> = Env::new(1000, 1, 1_000_000, true);
+    let mut rng = Xoroshiro128StarStar::seed_from_u64(seed ^ 0x2545F4914F6CDD1D);
+    let r = env.place_order(Side::Ask, 1, 0, Some(500)).unwrap();
+    env.step(&mut rng);
+    let start = env.get_orderbook().get_time();
+    let mut ids = Vec::new();
+    for i in 0..n - 2 { ids.push(env.place_order(Side::Bid, 1 + (i as u32 % 3), 1, Some(10 + i as u32)).unwrap()); }
+    env.cancel_order(r);
+    let c = *ids.last().unwrap();
+    if modify { env.modify_order(c, Some(200), None); } else { env.cancel_order(c); }
+    env.step(&mut rng);
+    let mut pos: Vec<usize> = ids.iter().map(|&i| (env.order(i).arr_time - start) as usize).collect();
+    pos.push((env.order(r).end_time - start) as usize);
+    let oc = env.order(c);
+    if !modify && oc.end_time != u64::MAX && oc.end_time >= start {
+        pos.push((oc.end_time - start) as usize);
+    } else {
+        let mut seen = vec![false; n];
+        for &p in &pos { if p < n { seen[p] = true; } }
+        pos.push((0..n).find(|&k| !seen[k]).unwrap_or(n));
+    }
+    pos
+}
+fn env_same_step_cancel(seed: u64, n: usize) -> Vec<usize> { env_same_step(seed, n, false) }
+fn env_same_step_modify(seed: u64, n: usize) -> Vec<usize> { env_same_step(seed, n, true) }
+
 pub fn run(seeds_small: u64, seeds_large: u64, base: u64) -> (Vec<String>, String) {
     let mut fails = Vec::new();
     let mut summary = Vec::new();
     // how many cells are tested in total (for the union bound)
     let mut cells = 0.0;
-    for n in 2..=6 { cells += 2.0 * fact(n) as f64; }
-    for n in [8usize, 16, 32, 64] { cells += 2.0 * (n * n) as f64 * 2.0; }
-    for (label, f) in [("Env", env_positions as fn(u64, usize) -> Vec<usize>), ("MarketEnv-mixed", menv_positions as fn(u64, usize) -> Vec<usize>)] {
+    for n in 2..=6 { cells += 4.0 * fact(n) as f64; }
+    for n in [8usize, 16, 32, 64] { cells += 4.0 * (n * n) as f64 * 2.0; }
+    for (label, f) in [("Env", env_positions as fn(u64, usize) -> Vec<usize>), ("MarketEnv-mixed", menv_positions as fn(u64, usize) -> Vec<usize>),
+                       ("Env-cancel-of-same-step-order", env_same_step_cancel as fn(u64, usize) -> Vec<usize>),
+                       ("Env-modify-of-same-step-order", env_same_step_modify as fn(u64, usize) -> Vec<usize>)] {
         for n in 2..=6usize {
+            if n < 3 && label.starts_with("Env-") { continue; }
             let k = fact(n);
             let mut counts = vec![0u64; k];
             for s in 0..seeds_small {
